@@ -98,6 +98,9 @@ func serverTLSConfig(kind string) (*tls.Config, error) {
 func (c *SimConn) c2sReady() bool { return len(c.c2s) > 0 || c.c2sClosed }
 
 //go:norace
+func (c *SimConn) closedNR() bool { return c.Closed > 0 }
+
+//go:norace
 func (c *SimConn) s2cReady() bool { return len(c.Raw) > c.s2cRead || c.Closed > 0 }
 
 func (c *SimConn) duplexRead(p []byte) (int, error) {
@@ -106,6 +109,16 @@ func (c *SimConn) duplexRead(p []byte) (int, error) {
 	// goroutine to the queues they share (for the race detector: the scheduler's
 	// own hand-over is hidden from it on purpose); it links each connection with
 	// its own client only, so it adds no happens-before edge between connections
+	// (the mutex is never held across a scheduler block: a task that is retired
+	// while it waits leaves through Goexit, which runs deferred calls)
+	if !c.closedNR() && !c.c2sReady() {
+		c.dmu.Lock()
+		c.Started = true
+		c.rec("read-wait", "")
+		c.Quiesce = append(c.Quiesce, len(c.Out))
+		c.dmu.Unlock()
+		c.rt.K.Block(c.task, "read-wait", c.c2sReady)
+	}
 	c.dmu.Lock()
 	defer c.dmu.Unlock()
 	c.Started = true
@@ -116,13 +129,6 @@ func (c *SimConn) duplexRead(p []byte) (int, error) {
 			c.wedge("reads continue after the server closed the connection")
 		}
 		return 0, net.ErrClosed
-	}
-	if len(c.c2s) == 0 && !c.c2sClosed {
-		c.rec("read-wait", "")
-		c.Quiesce = append(c.Quiesce, len(c.Out))
-		c.dmu.Unlock()
-		c.rt.K.Block(c.task, "read-wait", c.c2sReady)
-		c.dmu.Lock()
 	}
 	if c.expired(c.rdl, "read") {
 		return 0, os.ErrDeadlineExceeded
@@ -171,13 +177,11 @@ func (e *clientEnd) Write(p []byte) (int, error) {
 
 func (e *clientEnd) Read(p []byte) (int, error) {
 	e.c.rt.K.Yield(e.task, "cread")
+	if !e.c.s2cReady() {
+		e.c.rt.K.Block(e.task, "cread-wait", e.c.s2cReady)
+	}
 	e.c.dmu.Lock()
 	defer e.c.dmu.Unlock()
-	if len(e.c.Raw) <= e.c.s2cRead && e.c.Closed == 0 {
-		e.c.dmu.Unlock()
-		e.c.rt.K.Block(e.task, "cread-wait", e.c.s2cReady)
-		e.c.dmu.Lock()
-	}
 	if len(e.c.Raw) <= e.c.s2cRead {
 		return 0, io.EOF
 	}
@@ -225,7 +229,7 @@ func runTLSClient(rt *Runtime, cs *connState, task int) {
 		note("client-done", "")
 	}()
 	rt.K.Yield(task, "client.start")
-	first := (&pgwire.FMsg{K: "ssl"}).Bytes()
+	first := (&pgwire.FMsg{K: "ssl", Data: tc.SSLBody}).Bytes()
 	if tc.PreSplit || len(tc.Pre) == 0 {
 		end.Write(first) //nolint:errcheck
 		if len(tc.Pre) > 0 {
